@@ -13,6 +13,19 @@ MKSet(l, r, tt, KT, CT) ==
             ELSE {l + a} \cup MKSet(l, l + a + 1, tt, KT, CT) \cup MKSet(l + a + 1, r, tt, KT, CT)
 
 
+\* the same decomposition over a SPARSE table: a sequence of entries <<l, r, answer, curved>> for the slices the recursion
+\* visits (long curves, where tabulating every slice is not feasible); a missing entry counts as Unknown
+HasEntry(tab, l, r) == \E j \in 1..Len(tab) : tab[j][1] = l /\ tab[j][2] = r
+Entry(tab, l, r) == tab[CHOOSE j \in 1..Len(tab) : tab[j][1] = l /\ tab[j][2] = r]
+RECURSIVE MKSparse(_, _, _, _)
+MKSparse(l, r, tt, tab) ==
+    IF r - l <= tt THEN {}
+    ELSE IF ~HasEntry(tab, l, r) THEN {Unknown}
+    ELSE LET e == Entry(tab, l, r)
+         IN IF ~e[4] \/ e[3] = None THEN {}
+            ELSE IF e[3] = Unknown THEN {Unknown}
+            ELSE {l + e[3]} \cup MKSparse(l, l + e[3] + 1, tt, tab) \cup MKSparse(l + e[3] + 1, r, tt, tab)
+
 \* does the decomposition consult an Unknown entry?
 RECURSIVE UsesUnknown(_, _, _, _, _)
 UsesUnknown(l, r, tt, KT, CT) ==
